@@ -62,6 +62,6 @@ def main(argv):
         "exhaustive": False,
         "samples": [s["id"] for s in nt[:3]],
     })
-    if ok and not nt:
+    if ok and not nt and not rep.violations:
         raise tlc.MachineryError("vacuous: no input produced a branching synthetic block")
     return rep.finish()
